@@ -253,7 +253,16 @@ func predStruct(c Case) (r Result) {
 		r.class("lowercase")
 		return
 	}
-	// equivalence with the generic JSON form
+	// equivalence with the generic JSON form. length() is in the property's domain for
+	// slices and strings only: a struct is not an object for length().
+	if n, st, perr := ref.ParseText(expr); perr == nil && st == ref.LexOK {
+		ev := &ref.Ev{}
+		_, _ = ev.Eval(n, ref.DeepCopy(twin))
+		if ev.Stats["length.object"] > 0 {
+			r.Discard = "outside-domain:length-of-struct"
+			return
+		}
+	}
 	to := libSearch(expr, twin)
 	if to.Panic != nil {
 		r.Discard = "generic-form-panics"
@@ -361,8 +370,16 @@ type hwInner struct {
 type hwEmbedded struct {
 	Label string
 }
+type hwLabel string
+type hwScore float64
+type hwBool bool
+
 type hwDoc struct {
 	hwEmbedded
+	Label  hwLabel
+	Score  hwScore
+	On     hwBool
+	Labels []hwLabel
 	Name   string
 	_x     int
 	lower  string
@@ -381,6 +398,9 @@ var hwExprs = []string{"_x", "lower", "Lower", "ünï", "Ünï", "Label", "label
 	"sort(Strs)", "sort(Nums)", "sum(Nums)", "avg(Nums)", "max(Nums)", "min(Strs)", "join(',', Strs)", "length(Items)", "length(Strs)", "length(Name)", "length(@)", "length(Inner)", "keys(@)", "values(@)",
 	"merge(@)", "merge(Inner, @)", "to_array(Strs)", "to_array(@)", "to_string(@)", "to_string(Items)", "to_number(@)", "to_number(Nums)", "type(@)", "type(Items)", "type(Ptr)", "type(NilPtr)", "not_null(NilPtr, Ptr)",
 	"not_null(NilPtr)", "abs(Nums[0])", "ceil(Nums[0])", "floor(Nums)", "starts_with(Name, Strs[0])", "ends_with(Strs, 'a')", "Strs[::-1]", "Nums[1:]", "Items[:1].Name", "*", "@.*", "Inner.*", "Items[*].*", "\"\"", "@.\"\"", "é", "á",
+	"reverse(Label)", "starts_with(Label, 'a')", "ends_with(Name, Label)", "contains(Label, 'a')", "contains(Labels, 'a')", "join(Label, Strs)", "join(',', Labels)", "length(Label)", "length(Labels)", "abs(Score)", "ceil(Score)",
+	"sort(Labels)", "max(Labels)", "min(Labels)", "to_number(Label)", "to_string(Label)", "to_string(Labels)", "Label == 'x'", "Score > `1`", "!On", "On && Name", "On || Name", "sort_by(Labels, &@)", "max_by(Labels, &@)", "map(&reverse(@), Labels)",
+	"map(&length(@), Labels)", "Labels[?@ == 'a']", "reverse(Labels)", "type(Label)", "type(Score)", "not_null(Label)", "to_array(Label)", "merge(@, {a: Label})", "sum([Score])", "avg([Score, Score])", "[Label, Score, On]", "Labels[0]", "Labels[::-1]",
 	"Items[?Tags[0] == 'x']", "Nums[?@ > `1`]", "Strs[?@ == 'a']", "Nums == Nums", "Ptr == Ptr", "Inner == Inner", "Items[0] == Items[0]", "Nums < Nums", "sort_by(Nums, &@)", "sort_by(Strs, &@)", "max_by(Strs, &@)", "map(&to_string(@), Items)"}
 
 // TestC18HandWritten: no expression panics on hand-written types with unexported,
@@ -388,7 +408,7 @@ var hwExprs = []string{"_x", "lower", "Lower", "ünï", "Ünï", "Label", "label
 func TestC18HandWritten(t *testing.T) {
 	in := &hwInner{Name: "n", Tags: []string{"x", "y"}}
 	docs := []interface{}{
-		hwDoc{Name: "d", Items: []*hwInner{in, nil, {Name: "", Tags: []string{}}}, Inner: *in, Ptr: in, Nums: []float64{2, 1}, Strs: []string{"b", "a"}},
+		hwDoc{Label: "lab", Score: 2.5, On: true, Labels: []hwLabel{"b", "a"}, Name: "d", Items: []*hwInner{in, nil, {Name: "", Tags: []string{}}}, Inner: *in, Ptr: in, Nums: []float64{2, 1}, Strs: []string{"b", "a"}},
 		&hwDoc{Items: []*hwInner{}, Nums: []float64{}, Strs: []string{}},
 		(*hwDoc)(nil),
 		[]hwDoc{{Name: "x", Nums: []float64{1}, Strs: []string{"a"}, Items: []*hwInner{nil}}},
@@ -842,5 +862,156 @@ func TestC18Rich(t *testing.T) {
 	st := statsFor("C18")
 	st.mu.Lock()
 	st.Exhaustive["C18.rich-grid"] = fmt.Sprintf("%d left-hand sides x %d navigation/projection chains x %d right-hand sides x %d terminators on a rich struct document (shard %d/%d: %d expressions), struct form vs generic form", len(richLHS), len(richOps), len(richRHS), len(richEnd), shard, nshards, n)
+	st.mu.Unlock()
+}
+
+
+// ---------------------------------------------------------------------------
+// C13 on struct documents: one compiled expression searched over documents of several
+// different (run-time generated, hence anonymous) struct types in turn must agree with
+// the one-shot Search every time.
+
+func init() {
+	predicates["structhistory"] = predStructHistory
+	predicates["richpipe"] = predRichPipe
+}
+
+func predStructHistory(c Case) (r Result) {
+	expr := c.expr()
+	specs, _ := c.Extra["specs"].([]interface{})
+	datas, _ := c.Extra["datas"].([]interface{})
+	var docs []interface{}
+	for i := range specs {
+		var v interface{}
+		if p := safely(func() { v = buildValue(specs[i].(map[string]interface{}), datas[i]).Interface() }); p != nil {
+			r.Discard = "HARNESS:cannot-build-value"
+			r.Violation = fmt.Sprint(p)
+			return
+		}
+		docs = append(docs, v)
+	}
+	comp, cerr, pan := libCompile(expr)
+	if pan != nil || cerr != nil {
+		r.Discard = "does-not-compile"
+		return
+	}
+	r.Nontrivial = len(docs) >= 2
+	for round := 0; round < 2; round++ {
+		for i, d := range docs {
+			var got libOut
+			got.Panic = safely(func() { got.Val, got.Err = comp.Search(d) })
+			one := libSearch(expr, d)
+			if got.Panic != nil || one.Panic != nil {
+				r.Violation = "Search panicked on struct data"
+				r.Got = showOut(got) + " / " + showOut(one)
+				return
+			}
+			if (got.Err != nil) != (one.Err != nil) {
+				r.Violation = fmt.Sprintf("compiled expression reused across documents disagrees with the one-shot Search about failure (document %d, round %d)", i, round)
+				r.Expected, r.Got = showOut(one), showOut(got)
+				return
+			}
+			if got.Err == nil {
+				a, e1 := normalise(got.Val)
+				b, e2 := normalise(one.Val)
+				if e1 != nil || e2 != nil || !reflect.DeepEqual(a, b) {
+					r.Violation = fmt.Sprintf("the result of a compiled expression depends on the documents it searched before (document %d, round %d)", i, round)
+					r.Expected, r.Got = "one-shot: "+show(b), "reused compiled: "+show(a)
+					return
+				}
+			}
+		}
+	}
+	return
+}
+
+func TestC13Structs(t *testing.T) {
+	rapid.Check(t, func(t *rapid.T) {
+		k := rapid.IntRange(2, 4).Draw(t, "docs")
+		var specs, datas []interface{}
+		var firstTwin interface{}
+		for i := 0; i < k; i++ {
+			spec := genStructSpec(t, 0)
+			data := genData(t, spec)
+			specs = append(specs, spec)
+			datas = append(datas, data)
+			if i == 0 {
+				var gv interface{}
+				if p := safely(func() { gv = buildValue(spec, data).Interface() }); p != nil {
+					t.Fatalf("HARNESS-ERROR: %v", p)
+				}
+				firstTwin, _ = normalise(gv)
+			}
+		}
+		f := fragNav
+		expr := genExpr(t, firstTwin, f)
+		run(t, Case{Property: "C13", Kind: "structhistory", Expr: expr, Extra: map[string]interface{}{"specs": specs, "datas": datas}})
+	})
+}
+
+// predRichPipe: the pipe law on the rich struct document.
+func predRichPipe(c Case) (r Result) {
+	a := c.expr()
+	b := c.Extra["b"].(string)
+	doc := richDoc()
+	whole := libSearch("("+a+") | ("+b+")", doc)
+	s1 := libSearch(a, doc)
+	if whole.Panic != nil || s1.Panic != nil {
+		r.Violation = "Search panicked on struct data"
+		r.Got = showOut(whole) + " / " + showOut(s1)
+		return
+	}
+	var s2 libOut
+	if s1.Err == nil {
+		s2 = libSearch(b, s1.Val)
+		if s2.Panic != nil {
+			r.Violation = "Search panicked on the intermediate value"
+			r.Got = showOut(s2)
+			return
+		}
+	}
+	splitErr := s1.Err != nil || s2.Err != nil
+	if (whole.Err != nil) != splitErr {
+		r.Violation = "'A | B' is an error exactly when one of the two steps is: violated on struct data"
+		r.Expected, r.Got = fmt.Sprintf("split: step1=%s step2=%s", showOut(s1), showOut(s2)), "composed: "+showOut(whole)
+		return
+	}
+	if whole.Err == nil {
+		x, e1 := normalise(whole.Val)
+		y, e2 := normalise(s2.Val)
+		if e1 != nil || e2 != nil || !reflect.DeepEqual(x, y) {
+			r.Violation = "Search('A | B', d) differs from Search(B, Search(A, d)) on struct data"
+			r.Expected, r.Got = "split: "+show(y), "composed: "+show(x)
+			return
+		}
+		r.Nontrivial = s1.Val != nil
+	}
+	return
+}
+
+var richPipeRHS = []string{"sort(@)", "max(@)", "min(@)", "join(',', @)", "sum(@)", "avg(@)", "@ == `[\"b\",\"\",\"a\"]`", "@ != `[2,0,1]`", "length(@)", "[0]", "[-1]", "reverse(@)", "to_array(@)", "[*]", "[]", "type(@)", "not_null(@)", "@", "[?@]", "contains(@, 'a')", "sort_by(@, &@)", "[*].Name", "map(&@, @)", "to_string(@)", "[::-1]", "[@, @]"}
+
+func TestC15Structs(t *testing.T) {
+	n := 0
+	for _, l := range richLHS {
+		for _, op := range richOps {
+			for ri, rh := range []string{"", ".Name", ".Members", ".Tags", ".Members[].Name", ".Vals[]", ".Title"} {
+				for bi, b := range richPipeRHS {
+					if (ri+bi)%2 == 1 {
+						continue
+					}
+					a := l + op + rh
+					if strings.HasPrefix(a, "@.") || strings.HasPrefix(a, "@[") {
+						a = strings.TrimPrefix(a[1:], ".")
+					}
+					run(t, Case{Property: "C15", Kind: "richpipe", Expr: a, Extra: map[string]interface{}{"b": b}})
+					n++
+				}
+			}
+		}
+	}
+	st := statsFor("C15")
+	st.mu.Lock()
+	st.Exhaustive["C15.struct-pipes"] = fmt.Sprintf("pipe law on a Go struct document: %d left expressions A x %d right expressions B (half of the cells): %d pairs", len(richLHS)*len(richOps)*7, len(richPipeRHS), n)
 	st.mu.Unlock()
 }
